@@ -15,16 +15,21 @@ STATES_MEANING = "distinct multisets of reporting rules observed under 'all rule
 
 SIGMA_BQ3 = ["> a", ">", "> > a"]
 SIGMA_LI4 = ["- a", "  - a", "  a", ""]
+# lines on which two rules report at once, with pragmas naming one or both of them
+_LONG = "x" * 82 + " y"
+SIGMA_PRAGMA_MULTI = ["<!-- pyml disable-next-line md009-->", "<!-- pyml disable-next-line md013,md009-->", _LONG + "   ", "#  a   ", ""]
 DEEP_FROM = 4  # documents of at least this many lines use the pruned configuration set
 
 
 def space(tier):
     if tier == "thorough":
         parts = [spaces.block_space("rule", 2), spaces.block_space("core", 3), spaces.block_space("wide", 2)]
+        parts += [spaces.ProductSpace("B(pragma-multi,4)", SIGMA_PRAGMA_MULTI, 4)]
         parts += [spaces.ProductSpace("B(bq3,8)", SIGMA_BQ3, 8, minlen=4), spaces.ProductSpace("B(li4,7)", SIGMA_LI4, 7, minlen=4), spaces.ProductSpace("B(mix,4)", spaces.SIGMA_MIX, 4, minlen=4)]
     else:
         parts = [spaces.block_space("rule", 2), spaces.block_space("core", 1), spaces.block_space("wide", 1)]
         parts += [spaces.ProductSpace("B(bq3,7)", SIGMA_BQ3, 7, minlen=4), spaces.ProductSpace("B(li4,5)", SIGMA_LI4, 5, minlen=4)]
+        parts += [spaces.ProductSpace("B(pragma-multi,3)", SIGMA_PRAGMA_MULTI, 3)]
     return spaces.UnionSpace(f"indep-{tier}", parts)
 
 
